@@ -162,13 +162,14 @@ func runC04Body(c *Ctx, body string, txts []string, clauses []amountClause, repl
 			if kind == "find" {
 				return "find " + amount + " " + body
 			}
-			with := " with 'x' value '#' matchNumber '@' startOffset '-' endOffset ':' lineNumber"
+			with := " with 'x' value '#' matchNumber '@' startOffset '-' endOffset ':' lineNumber ' ' tn"
 			for _, name := range []string{"x", "y"} {
 				if strings.Contains(body, "= "+name) {
 					with += " '<' " + name + " '>'"
 				}
 			}
-			return "replace " + amount + " " + body + with
+			// a transform that reads the built-ins: its result belongs to the match, not to the matched text
+			return "set tn to transform return match + '/' + matchNumber + '/' + startOffset + '/' + lineNumber end\nreplace " + amount + " " + body + with
 		}
 		all, err, pi := compileSafe(mk("all"))
 		if err != nil || pi != nil {
